@@ -17,7 +17,7 @@ import (
 func init() {
 	register(&propDef{
 		id: "C07", level: "other", perCfg: false,
-		explain: "Necessary structural conditions of C07, decided for all descriptions at once because they are statements about the generator's code. G3 lexical-context safety (E10): an AST walk of the generator in statement order tracks the Go lexer mode of the output (code, line comment, string, raw string) across every constant fragment; joins must agree on the mode; every spliced runtime string is classified by provenance (which member of the parsed tree, through strings.Title/ToLower/Replace) with the byte class the parser can put there (token charsets by finite evaluation of the readers, the interface-name patterns via regexp/syntax, documentation and description: any byte) and must be safe in its context - identifier bytes only in code, a letter first when it starts an identifier, not a Go keyword when it is a whole identifier, no quote/backslash/newline in a string, no backtick or CR in a raw string, no newline in a line comment, tag-safe in a struct tag; replacements must return to the same mode; the walk must end in code mode. G2 conversion-kind agreement: the kinds whose emitted Go type depends on the tagged/untagged flag are derived from the type writer (arms that use the flag, directly or through the recursive call) and every site that chooses between an explicit conversion and a plain assignment must list exactly that set; G2b conversions are emitted parenthesised `(T)(x)` because T may start with '*'. G4 imports are decided from the selector expressions of the parsed output (never by searching text that contains free prose), one decision per package qualifier that occurs in a code-mode constant. G1 nullable tree members (which pointer members of the tree the parser may leave nil is derived from the parser's construction sites) are dereferenced only under a nil test, a kind discrimination, after the generator's own normalisation loop, or under the stated domain assumption (method in/out are structs). G7 the output file is written with one truncating whole-file write of exactly the template function's result. G7 also: the file is named after the package name, whose derivation from the interface name introduces no `_` besides the keyword suffix (no *_test.go, *_GOOS.go, *_GOARCH.go). G8 the parser is handed the input with at most trailing newlines removed and the emitted description is the tree's Description re-encoded for the raw string only. G5 determinism: no map iteration, clock, environment, random source or goroutine in code reachable from the template function. G6 termination: all loops range over slices; the type writer recurses only into ElementType / a field's Type.",
+		explain: "Necessary structural conditions of C07, decided for all descriptions at once because they are statements about the generator's code. G3 lexical-context safety (E10): an AST walk of the generator in statement order tracks the Go lexer mode of the output (code, line comment, string, raw string) across every constant fragment; joins must agree on the mode; every spliced runtime string is classified by provenance (which member of the parsed tree, through strings.Title/ToLower/Replace) with the byte class the parser can put there (token charsets by finite evaluation of the readers, the interface-name patterns via regexp/syntax, documentation and description: any byte) and must be safe in its context - identifier bytes only in code, a letter first when it starts an identifier, not a Go keyword when it is a whole identifier, no quote/backslash/newline in a string, no backtick or CR in a raw string, no newline in a line comment, tag-safe in a struct tag; replacements must return to the same mode; the walk must end in code mode. G2 conversion-kind agreement: the kinds whose emitted Go type depends on the tagged/untagged flag are derived from the type writer (arms that use the flag, directly or through the recursive call) and every site that chooses between an explicit conversion and a plain assignment must list exactly that set; G2b conversions are emitted parenthesised `(T)(x)` because T may start with '*'. G4 imports are decided from the selector expressions of the parsed output (never by searching text that contains free prose), one decision per package qualifier that occurs in a code-mode constant. G1 nullable tree members (which pointer members of the tree the parser may leave nil is derived from the parser's construction sites) are dereferenced only under a nil test, a kind discrimination, after the generator's own normalisation loop, or under the stated domain assumption (method in/out are structs). G7 the output file is written with one truncating whole-file write of exactly the template function's result. G7 also: the file is named after the package name, whose derivation from the interface name introduces no `_` besides the keyword suffix (no *_test.go, *_GOOS.go, *_GOARCH.go). G8 the parser is handed the input with at most trailing newlines removed and the emitted description is the tree's Description re-encoded for the raw string only. G5 determinism: no map iteration, clock, environment, random source or goroutine in code reachable from the template function. G6 termination: all loops range over slices; the type writer recurses only into ElementType / a field's Type. G3 also: nesting depth - the parenthesis/bracket/brace depth of the emitted code is tracked through every constant fragment, must agree at joins and be zero at the end and at every emitted top-level declaration. G9 composite literals of generated struct types are emitted only under the kind test that makes the type a struct. G10 emitted identifiers: every identifier the template uses inside an emitted function is declared in that function's emitted text on every path (path-sensitive, online in the walk), and every emitted declaration is used (the Go compiler rejects `declared and not used`); undecidable joins are dropped, not reported. G11 list separators are written under one of the two idioms `not the last element` (after the element) or `not the first` (before it). G12 error discipline of the generator (engine errdisc): success is returned only where the error is known nil, a result is not used where its error may be non-nil, errors of repo calls are not dropped, no inverted test, no exit(0) on an error edge.",
 		notDec:  "That the emitted token sequence is a well-typed Go program for every description (needs a grammar-level string analysis or execution of the generator - out of family / out of reach); go/format and go/parser behaviour.",
 		trusted: []string{"go/parser and go/format accept what the Go lexer/grammar accept", "strings.Title upper-cases the first letter of an ASCII identifier"},
 		assume:  []string{"method input and output types are structs (the property's domain)", "type references resolve, field names are distinct and no member is named like one of the generator's fixed identifiers (the property's domain)"},
@@ -322,13 +322,104 @@ func runC07(r *Run, p *Prog) {
 					if sep == "" || strings.ContainsAny(sep, "abcdefghijklmnopqrstuvwxyzABCDEFGHIJKLMNOPQRSTUVWXYZ0123456789_{}()") {
 						continue // not a bare separator
 					}
-					if !strings.Contains(norm(is.Cond), i) {
-						continue // not a test of the index
+					// the test is evaluated as a function of (index, length) over small lists; locals assigned once
+					// are replaced by their definition (`last := len(X) - 1`)
+					defs := singleDefs(fd, info)
+					var eval func(e ast.Expr, iv, nv int64, depth int) (int64, bool, bool) // value, bool value, ok
+					eval = func(e ast.Expr, iv, nv int64, depth int) (int64, bool, bool) {
+						if depth > 6 {
+							return 0, false, false
+						}
+						switch e := e.(type) {
+						case *ast.ParenExpr:
+							return eval(e.X, iv, nv, depth)
+						case *ast.BasicLit:
+							if tv, ok := info.Types[e]; ok && tv.Value != nil && tv.Value.Kind() == constant.Int {
+								v, _ := constant.Int64Val(tv.Value)
+								return v, false, true
+							}
+						case *ast.Ident:
+							if e.Name == i {
+								return iv, false, true
+							}
+							if tv, ok := info.Types[e]; ok && tv.Value != nil && tv.Value.Kind() == constant.Int {
+								v, _ := constant.Int64Val(tv.Value)
+								return v, false, true
+							}
+							if d, ok := defs[info.ObjectOf(e)]; ok {
+								return eval(d, iv, nv, depth+1)
+							}
+						case *ast.CallExpr:
+							if id, ok := e.Fun.(*ast.Ident); ok && id.Name == "len" && len(e.Args) == 1 {
+								a := e.Args[0]
+								if ai, ok := a.(*ast.Ident); ok {
+									if d, ok := defs[info.ObjectOf(ai)]; ok {
+										a = d
+									}
+								}
+								if norm(a) == X {
+									return nv, false, true
+								}
+							}
+						case *ast.UnaryExpr:
+							x, xb, ok := eval(e.X, iv, nv, depth)
+							if ok && e.Op == token.NOT {
+								return 0, !xb, true
+							}
+							if ok && e.Op == token.SUB {
+								return -x, false, true
+							}
+						case *ast.BinaryExpr:
+							x, xb, ok1 := eval(e.X, iv, nv, depth)
+							y, yb, ok2 := eval(e.Y, iv, nv, depth)
+							if !ok1 || !ok2 {
+								return 0, false, false
+							}
+							switch e.Op {
+							case token.ADD:
+								return x + y, false, true
+							case token.SUB:
+								return x - y, false, true
+							case token.EQL:
+								return 0, x == y, true
+							case token.NEQ:
+								return 0, x != y, true
+							case token.LSS:
+								return 0, x < y, true
+							case token.LEQ:
+								return 0, x <= y, true
+							case token.GTR:
+								return 0, x > y, true
+							case token.GEQ:
+								return 0, x >= y, true
+							case token.LAND:
+								return 0, xb && yb, true
+							case token.LOR:
+								return 0, xb || yb, true
+							}
+						}
+						return 0, false, false
+					}
+					notLast, notFirst, decided := true, true, true
+					for nv := int64(1); nv <= 4 && decided; nv++ {
+						for iv := int64(0); iv < nv; iv++ {
+							_, v, ok := eval(is.Cond, iv, nv, 0)
+							if !ok {
+								decided = false
+								break
+							}
+							if v != (iv != nv-1) {
+								notLast = false
+							}
+							if v != (iv != 0) {
+								notFirst = false
+							}
+						}
+					}
+					if !decided {
+						continue // depends on something else than the index and the length: not this idiom
 					}
 					n++
-					c := norm(is.Cond)
-					notLast := c == i+"!=len("+X+")-1" || c == i+"<len("+X+")-1" || c == i+"+1<len("+X+")" || c == i+"+1!=len("+X+")" || c == "len("+X+")-1!="+i || c == "len("+X+")-1>"+i
-					notFirst := c == i+">0" || c == i+"!=0" || c == i+">=1" || c == "0<"+i || c == "0!="+i
 					okPos := notLast && pos > 0 || notFirst && pos < len(rs.Body.List)-1 || notFirst && pos == 0
 					r.Ob("G11", fd.Name.Name, fmt.Sprintf("separator %q in the loop over %s is written between the elements", sep, types.ExprString(rs.X)), is.Pos(), (notLast || notFirst) && okPos,
 						"the separator is written under `"+types.ExprString(is.Cond)+"`, which is neither `not the last element` after the element nor `not the first element` before it: the emitted list has its separators in the wrong places (a trailing or missing comma) and does not parse")
@@ -2131,4 +2222,47 @@ func sameSliceLaterLoop(T *Terms, f *ssa.Function, st ssa.Instruction, useHolder
 	}
 	// the second loop starts after the first: h1 dominates h2 and h2 is not inside loop 1
 	return h1.Dominates(h2) && !inLoop(h2)
+}
+
+// singleDefs: the locals of a function that are assigned exactly once, by `name := expr`, with that expression.
+func singleDefs(fd *ast.FuncDecl, info *types.Info) map[types.Object]ast.Expr {
+	cnt := map[string]int{}
+	def := map[string]ast.Expr{}
+	ids := map[string]*ast.Ident{}
+	ast.Inspect(fd.Body, func(n ast.Node) bool {
+		switch n := n.(type) {
+		case *ast.AssignStmt:
+			for k, l := range n.Lhs {
+				if id, ok := l.(*ast.Ident); ok {
+					cnt[id.Name]++
+					if n.Tok == token.DEFINE && len(n.Lhs) == len(n.Rhs) {
+						def[id.Name] = n.Rhs[k]
+						ids[id.Name] = id
+					}
+				}
+			}
+		case *ast.IncDecStmt:
+			if id, ok := n.X.(*ast.Ident); ok {
+				cnt[id.Name] += 2
+			}
+		case *ast.RangeStmt:
+			for _, e := range []ast.Expr{n.Key, n.Value} {
+				if id, ok := e.(*ast.Ident); ok {
+					cnt[id.Name] += 2
+				}
+			}
+		case *ast.UnaryExpr:
+			if id, ok := n.X.(*ast.Ident); ok && n.Op == token.AND {
+				cnt[id.Name] += 2
+			}
+		}
+		return true
+	})
+	out := map[types.Object]ast.Expr{}
+	for name, c := range cnt {
+		if c == 1 && def[name] != nil {
+			out[info.Defs[ids[name]]] = def[name]
+		}
+	}
+	return out
 }
